@@ -227,6 +227,25 @@ def run_case(case):
     p_dense(lambda M: M.astype(float), "float")
     p_dense(lambda M: np.asfortranarray(M.astype(np.int16)), "int16F")
 
+    # --- one float64 weight vector object handed to several networks; a copy; in-place arithmetic on the weights of one of
+    #     them (`net.node_weights *= c` reads, edits and re-assigns): every network keeps describing ITS weights - node
+    #     weights, total and mean agree with each other and with what it was given
+    if w is not None:
+        def f_shared():
+            wv = np.array(w, dtype=np.float64)
+            keep = wv.copy()
+            net1 = Network(adjacency=A.astype(np.int8), directed=directed, node_weights=wv, silence_level=3)
+            net2 = Network(adjacency=A.astype(np.int8), directed=directed, node_weights=wv, silence_level=3)
+            twin = net1.copy()
+            twin.node_weights *= 2.0
+            net2.node_weights /= 4.0
+            compare(fails, "shared_weight_vector/first-network", net1, exp, {})
+            compare(fails, "shared_weight_vector/copy-scaled", twin, expected(A, directed, (keep * 2.0).tolist()), {})
+            compare(fails, "shared_weight_vector/second-network-scaled", net2, expected(A, directed, (keep / 4.0).tolist()), {})
+            if not np.array_equal(wv, keep):
+                fails.append(("shared_weight_vector/caller-array", f"the caller's vector changed: {keep.tolist()} -> {wv.tolist()}"))
+        guarded("shared_weight_vector", f_shared)
+
     # --- sparse
     for fmt in ("csc", "csr", "coo", "lil", "dok"):
         def f(fmt=fmt):
